@@ -647,7 +647,7 @@ func (c c11Cell) String() string { return c.call + "/" + c.step + "/" + c.cause 
 func C11Matrix() []c11Cell {
 	var cells []c11Cell
 	calls := []string{"publish1", "publish2", "subscribe", "unsubscribe", "ping"}
-	causes := []string{"cancel", "deadline", "localclose", "peereof", "peerreset", "malformed", "disconnect"}
+	causes := []string{"cancel", "deadline", "localclose", "peereof", "peerreset", "malformed", "disconnect", "connacks-peereof"}
 	for _, c := range calls {
 		steps := []string{"before", "afterwrite"}
 		if c == "publish2" {
@@ -721,6 +721,13 @@ func applyCause(sc *Scenario, cause string, t int64, target int, r *Rng) {
 		sc.Faults = append(sc.Faults, Fault{Kind: "cutAt", Conn: 1, AtUs: t})
 	case "peerreset":
 		sc.Faults = append(sc.Faults, Fault{Kind: "cutAt", Conn: 1, AtUs: t, Reset: true})
+	case "connacks-peereof":
+		// the peer sends CONNACK twice more (a proxy replaying it, a confused
+		// broker), then closes
+		for j := int64(2); j >= 1; j-- {
+			sc.Script = append(sc.Script, Out{Conn: 1, AtUs: t - sc.Cfg.LatB2CUs - 40*j, Kind: "pkt", Pkt: &Pkt{Type: TConnAck}, Class: "forged"})
+		}
+		sc.Faults = append(sc.Faults, Fault{Kind: "cutAt", Conn: 1, AtUs: t})
 	case "malformed":
 		raws := []string{hx(0xf0, 0), hx(0x36, 3, 0, 1, 'a'), hx(0x41, 2, 0, 1), hx(0x40, 0x80, 0x80, 0x80, 0x80, 0x01), hx(0x90, 0), hx(0x20, 1, 0)}
 		sc.Script = append(sc.Script, Out{Conn: 1, AtUs: t - sc.Cfg.LatB2CUs, Kind: "raw", RawHex: raws[r.IntN(len(raws))], Class: "malformed"})
